@@ -36,6 +36,13 @@ func vClassify(je *jerr.JApiError) int {
 	return vErrOther
 }
 
+// kind subsets for longer sequences (0 = all 31 kinds)
+var vC11Subsets = [][]int{
+	nil,
+	{kURL, kGET, kPOST, kMACRO, kResponse, kBody, kPASTE, kTAG, kDescription, kRequest, kPath, kTYPE},
+	{kURL, kGET, kMACRO, kResponse, kProtocol, kMethod, kParams, kINFO, kTitle, kSERVER, kBaseUrl, kTags},
+}
+
 // HContext (C11): a sequence of n events, each a directive (kind, has-Path,
 // followed-by-'(') or a ')' — all symbolic — then end of file. The real
 // processContext / closeLastExplicitContext / processEOF are driven exactly as
@@ -43,6 +50,7 @@ func vClassify(je *jerr.JApiError) int {
 func HContext() {
 	n := vParam("n", 2)
 	maxKind := vParam("maxkind", kCount-1)
+	subset := vC11Subsets[vParam("subset", 0)]
 	file := fs.NewFile("/vfs/root.jst", []byte(strings.Repeat("x", 10*n+10)))
 	c := NewJApiCore(file)
 	c.scanner.SetCurrentIndex(bytes.Index(5)) // a plausible position for the ')' / EOF errors
@@ -58,7 +66,11 @@ func HContext() {
 		id := string(rune('0' + i))
 		evs[i].close = vBool("close" + id)
 		if !evs[i].close {
-			evs[i].kind = vInt("kind"+id, 0, maxKind)
+			if len(subset) == 0 {
+				evs[i].kind = vInt("kind"+id, 0, maxKind)
+			} else {
+				evs[i].kind = subset[vInt("kind"+id, 0, len(subset)-1)]
+			}
 			evs[i].hasPath = vBool("path" + id)
 			evs[i].explict = vBool("open" + id)
 		}
@@ -129,10 +141,11 @@ func HContext() {
 						refErr, refAt, refOn = vErrContextWithPath, at, d
 						return
 					}
-					roots = append(roots, d)
-					parent[d] = -1
-					stack = []int{d} // the context chain is cut: a new root
-					return
+					// a method with its own path does not belong to the implicit URL: the URL
+					// closes silently and the method is placed further up (a new root when
+					// nothing encloses the URL; an enclosing explicit context is never left)
+					stack = stack[:len(stack)-1]
+					continue
 				}
 				parent[d] = top
 				stack = append(stack, d)
